@@ -83,6 +83,9 @@ def run(ctx):  # noqa: C901, PLR0912, PLR0915
     ctx.rule('C16.R4', 'shape of __contains__: reject iff root differs or an own set element differs')
     cls = repo.cls(LOC)
 
+    # the scope a provider publishes is that of its one associated location: set_location leaves no former location associated
+    from .c10 import disassociate_all_marks
+    disassociate_all_marks(ctx, 'C16.R2')
     # ------------------------------------------------------------------ R1
     esc = chain_escapes(repo, LOC, 'filter_services_inside')
     sites_total = sum(len(raise_sites(repo.resolve_method(LOC, m))) for m in
@@ -284,6 +287,9 @@ def run(ctx):  # noqa: C901, PLR0912, PLR0915
            'publish_service announces a Service object whose scopes are not those handed in (a kept object from the previous '
            'publication): after set_location the Hello and all ProbeMatches still carry the old location scope', fi=pub)
 
+    from . import common
+    # the scope strings that reach the location filter are the items of the wsd:Scopes list, whatever white space separates them
+    common.element_text_lists_split_on_whitespace(ctx, 'C16.R3')
     # ------------------------------------------------------------------ R3
     ss = repo.method(LOC, 'scope_string')
     w = {call_name(c) for c in calls_in(ss.node)}
